@@ -237,7 +237,8 @@ Record fdyn := mkFdyn {
 }.
 
 Record world := mkWorld {
-  w_R : nat -> positive -> Prop;            (* the cells of a user variable: Sylt cell, Lua cell *)
+  w_R : nat -> positive -> bool -> Prop;    (* the cells of a user variable: Sylt cell, Lua cell; flag false: the two cells
+                                               of a function-valued constant while its value is computed (any content) *)
   w_F : nat -> positive -> fdyn -> Prop;    (* the cells of a function name or function parameter, and the closure they hold *)
   w_D : fdyn -> Prop;                       (* the closures that exist *)
   w_P : positive -> value -> Prop;          (* Lua cells with a fixed content *)
@@ -251,7 +252,7 @@ Definition dkind (d : fdyn) : kind := KF (fd_pk d) (fd_rk d).
 
 (* a world that knows at least what another one knows; the fixed cells are the same *)
 Definition wsub (W W' : world) : Prop :=
-  (forall c p, w_R W c p -> w_R W' c p) /\ (forall c p d, w_F W c p d -> w_F W' c p d) /\
+  (forall c p b, w_R W c p b -> w_R W' c p b) /\ (forall c p d, w_F W c p d -> w_F W' c p d) /\
   (forall d, w_D W d -> w_D W' d) /\ (forall p lv, w_P W p lv <-> w_P W' p lv) /\ w_pc W' = w_pc W.
 Lemma wsub_refl W : wsub W W. Proof. repeat split; auto. Qed.
 Lemma wsub_trans W1 W2 W3 : wsub W1 W2 -> wsub W2 W3 -> wsub W1 W3.
@@ -308,16 +309,16 @@ Variable fl : list (N * kind).   (* the functions that can be called by name fro
 Variable W : world.
 
 (* a Lua cell that is neither the cell of a user variable nor of a function name *)
-Definition not_user (p : positive) : Prop := (forall c, ~ w_R W c p) /\ (forall c d, ~ w_F W c p d).
+Definition not_user (p : positive) : Prop := (forall c b, ~ w_R W c p b) /\ (forall c d, ~ w_F W c p d).
 
 Record winv (sc : list N) (e : senv) (st : sstate) (E : env) (stL : state) : Prop := mkWinv {
   (* the cells of the user variables hold related values *)
-  wi_R : forall c p, w_R W c p ->
-         exists x, nth_error (SyltSem.cells st) c = Some x /\ vrel x (get_cell stL p) /\ (p < s_ncell stL)%positive;
-  wi_Rfun : forall c p p', w_R W c p -> w_R W c p' -> p = p';
-  wi_Rinj : forall c c' p, w_R W c p -> w_R W c' p -> c = c';
-  wi_RF : forall c p, w_R W c p -> (forall p' d, ~ w_F W c p' d) /\ (forall c' d, ~ w_F W c' p d);
-  wi_RP : forall c p lv, w_R W c p -> ~ w_P W p lv;
+  wi_R : forall c p b, w_R W c p b ->
+         exists x, nth_error (SyltSem.cells st) c = Some x /\ (if b then vrel x (get_cell stL p) else True) /\ (p < s_ncell stL)%positive;
+  wi_Rfun : forall c p p' b b', w_R W c p b -> w_R W c p' b' -> p = p' /\ b = b';
+  wi_Rinj : forall c c' p b b', w_R W c p b -> w_R W c' p b' -> c = c';
+  wi_RF : forall c p b, w_R W c p b -> (forall p' d, ~ w_F W c p' d) /\ (forall c' d, ~ w_F W c' p d);
+  wi_RP : forall c p b lv, w_R W c p b -> ~ w_P W p lv;
   (* the cells of the function names hold their closures *)
   wi_F : forall c p d, w_F W c p d ->
          nth_error (SyltSem.cells st) c = Some (SyltSem.SClos (fd_ci d)) /\ get_cell stL p = VFun (fd_fid d) /\
@@ -336,15 +337,15 @@ Record winv (sc : list N) (e : senv) (st : sstate) (E : env) (stL : state) : Pro
          fd_fid d = fid_of (fd_ci d) /\ (fd_ci d < length (SyltSem.clos st))%nat /\
          SyltSem.lookup (fd_ef d) pv = Some (w_pc W) /\
          (forall g, In g (fd_sc d) ->
-            exists c p, SyltSem.lookup (fd_ef d) g = Some c /\ sget (fmt_var g) (fd_Ef d) = Some p /\ w_R W c p) /\
-         (forall f K, In (f, K) (fd_fl d) ->
+            exists c p, SyltSem.lookup (fd_ef d) g = Some c /\ sget (fmt_var g) (fd_Ef d) = Some p /\ w_R W c p true) /\
+         (forall f K, In (f, K) (fd_fl d) -> K <> KP ->
             exists c p d', SyltSem.lookup (fd_ef d) f = Some c /\ sget (fmt_var f) (fd_Ef d) = Some p /\ w_F W c p d' /\
                            dkind d' = K) /\
          (forall t p, bound <= t -> sget (fmt_var t) (fd_Ef d) = Some p -> not_user p);
   wi_Dall : forall ci, (ci < length (SyltSem.clos st))%nat -> exists d, w_D W d /\ fd_ci d = ci;
   wi_lock : s_nclo stL = fid_of (length (SyltSem.clos st));
   (* the current scope *)
-  wi_sc : forall v, In v sc -> exists c p, SyltSem.lookup e v = Some c /\ sget (fmt_var v) E = Some p /\ w_R W c p;
+  wi_sc : forall v, In v sc -> exists c p, SyltSem.lookup e v = Some c /\ sget (fmt_var v) E = Some p /\ w_R W c p true;
   wi_scfl : forall v, In v sc -> ~ In v (fnames fl);
   wi_temps : forall t p, bound <= t -> sget (fmt_var t) E = Some p -> not_user p
 }.
@@ -368,7 +369,7 @@ Record rel0 (fl : list (N * kind)) (W : world) (sc : list N) (e : senv) (st : ss
    is known in W; the rest of the invariant holds in a world that knows at least what W knows (the worlds grow
    along a run: every definition of a user variable adds its two cells, every function definition its closure) *)
 Definition fscope (fl : list (N * kind)) (W : world) (e : senv) (E : env) : Prop :=
-  forall f K, In (f, K) fl ->
+  forall f K, In (f, K) fl -> K <> KP ->
     exists c p d, SyltSem.lookup e f = Some c /\ sget (fmt_var f) E = Some p /\ w_F W c p d /\ dkind d = K /\ w_D W d.
 
 Definition rel (fl : list (N * kind)) (W : world) (sc : list N) (e : senv) (st : sstate) (E : env) (stL : state) : Prop :=
@@ -383,7 +384,7 @@ Lemma r_vars fl W sc e st E stL : rel fl W sc e st E stL ->
                                        sget (fmt_var v) E = Some p /\ vrel x (get_cell stL p).
 Proof.
   intros (_ & W' & _ & H) v Hv. destruct (wi_sc _ _ _ _ _ _ _ (r0_world _ _ _ _ _ _ _ H) v Hv) as (c & p & H1 & H2 & H3).
-  destruct (wi_R _ _ _ _ _ _ _ (r0_world _ _ _ _ _ _ _ H) c p H3) as (x & H4 & H5 & _). exists c, x, p. auto.
+  destruct (wi_R _ _ _ _ _ _ _ (r0_world _ _ _ _ _ _ _ H) c p true H3) as (x & H4 & H5 & _). exists c, x, p. auto.
 Qed.
 Lemma r_scb fl W sc e st E stL : rel fl W sc e st E stL -> forall v, In v sc -> v < bound /\ v <> pv.
 Proof. intros (_ & W' & _ & H). apply (r0_scb _ _ _ _ _ _ _ H). Qed.
@@ -408,21 +409,21 @@ Lemma r_linv fl W sc e st E stL : rel fl W sc e st E stL -> linv stL.
 Proof. intros (_ & W' & _ & H). apply (r0_linv _ _ _ _ _ _ _ H). Qed.
 Lemma r_scfl fl W sc e st E stL : rel fl W sc e st E stL -> forall v, In v sc -> ~ In v (fnames fl).
 Proof. intros (_ & W' & _ & H). apply (wi_scfl _ _ _ _ _ _ _ (r0_world _ _ _ _ _ _ _ H)). Qed.
-Lemma r_fun fl W sc e st E stL f ar : rel fl W sc e st E stL -> In (f, ar) fl ->
+Lemma r_fun fl W sc e st E stL f ar : rel fl W sc e st E stL -> In (f, ar) fl -> ar <> KP ->
   exists c ci p fid, SyltSem.lookup e f = Some c /\ nth_error (SyltSem.cells st) c = Some (SyltSem.SClos ci) /\
                      sget (fmt_var f) E = Some p /\ get_cell stL p = VFun fid /\ fid = fid_of ci.
 Proof.
-  intros (Hfs & W' & (_ & HsF & _) & H) Hin. destruct (Hfs f ar Hin) as (c & p & d & H1 & H2 & H3 & _).
+  intros (Hfs & W' & (_ & HsF & _) & H) Hin HK. destruct (Hfs f ar Hin HK) as (c & p & d & H1 & H2 & H3 & _).
   apply HsF in H3.
   destruct (wi_F _ _ _ _ _ _ _ (r0_world _ _ _ _ _ _ _ H) c p d H3) as (H4 & H5 & _ & H6).
   destruct (wi_D _ _ _ _ _ _ _ (r0_world _ _ _ _ _ _ _ H) d H6) as (_ & _ & _ & _ & H7 & _).
   exists c, (fd_ci d), p, (fd_fid d). auto 10.
 Qed.
-Lemma r_fund fl W sc e st E stL f K : rel fl W sc e st E stL -> In (f, K) fl ->
+Lemma r_fund fl W sc e st E stL f K : rel fl W sc e st E stL -> In (f, K) fl -> K <> KP ->
   exists c p d, SyltSem.lookup e f = Some c /\ nth_error (SyltSem.cells st) c = Some (SyltSem.SClos (fd_ci d)) /\
                 sget (fmt_var f) E = Some p /\ get_cell stL p = VFun (fd_fid d) /\ w_D W d /\ dkind d = K.
 Proof.
-  intros (Hfs & W' & (_ & HsF & _) & H) Hin. destruct (Hfs f K Hin) as (c & p & d & H1 & H2 & H3 & H4 & H5).
+  intros (Hfs & W' & (_ & HsF & _) & H) Hin HK. destruct (Hfs f K Hin HK) as (c & p & d & H1 & H2 & H3 & H4 & H5).
   apply HsF in H3.
   destruct (wi_F _ _ _ _ _ _ _ (r0_world _ _ _ _ _ _ _ H) c p d H3) as (H6 & H7 & _).
   exists c, p, d. auto 10.
@@ -439,17 +440,17 @@ Lemma vrel_not_clos ci lv : ~ vrel (SyltSem.SClos ci) lv.
 Proof. intros H. inversion H. Qed.
 
 (* the cell of print is not the cell of a user variable *)
-Lemma winv_pc_notR fl W sc e st E stL p : winv fl W sc e st E stL -> ~ w_R W (w_pc W) p.
+Lemma winv_pc_notR fl W sc e st E stL p : winv fl W sc e st E stL -> ~ w_R W (w_pc W) p true.
 Proof.
-  intros Hw Hr. destruct (wi_R _ _ _ _ _ _ _ Hw _ _ Hr) as (x & Hx & Hv & _).
+  intros Hw Hr. destruct (wi_R _ _ _ _ _ _ _ Hw _ _ _ Hr) as (x & Hx & Hv & _).
   rewrite (wi_pc _ _ _ _ _ _ _ Hw) in Hx. inversion Hx; subst. exact (vrel_not_ext _ _ Hv).
 Qed.
 
 Lemma winv_states fl W sc e st E stL st' stL' :
   winv fl W sc e st E stL ->
-  (forall c, (forall p, ~ w_R W c p) -> (c < length (SyltSem.cells st))%nat ->
+  (forall c, (forall p, ~ w_R W c p true) -> (c < length (SyltSem.cells st))%nat ->
              nth_error (SyltSem.cells st') c = nth_error (SyltSem.cells st) c) ->
-  (forall c p, w_R W c p -> exists x, nth_error (SyltSem.cells st') c = Some x /\ vrel x (get_cell stL' p)) ->
+  (forall c p, w_R W c p true -> exists x, nth_error (SyltSem.cells st') c = Some x /\ vrel x (get_cell stL' p)) ->
   SyltSem.clos st' = SyltSem.clos st ->
   (forall c p d, w_F W c p d -> get_cell stL' p = get_cell stL p) ->
   (forall p lv, w_P W p lv -> get_cell stL' p = get_cell stL p) ->
@@ -462,9 +463,12 @@ Proof.
   assert (Hlen : forall c x, nth_error (SyltSem.cells st) c = Some x -> (c < length (SyltSem.cells st))%nat)
     by (intros c x H; apply nth_error_Some; congruence).
   constructor; auto.
-  - intros c p Hr. destruct (HR c p Hr) as (x & Hx & Hv). destruct (H1 c p Hr) as (_ & _ & _ & Hlt). exists x. split; [exact Hx | split; [exact Hv | lia]].
+  - intros c p [|] Hr.
+    + destruct (HR c p Hr) as (x & Hx & Hv). destruct (H1 c p true Hr) as (_ & _ & _ & Hlt). exists x. split; [exact Hx | split; [exact Hv | lia]].
+    + destruct (H1 c p false Hr) as (x & A & _ & Hlt). exists x. split; [|split; [exact I | lia]].
+      rewrite HS; [exact A | | eapply Hlen; exact A]. intros p' Hr'. destruct (H2 c p p' false true Hr Hr') as [_ Hb]. discriminate Hb.
   - intros c p d Hf. destruct (H6 c p d Hf) as (A & B & C & D). split; [|split; [rewrite (HF c p d Hf); exact B | split; [lia | exact D]]].
-    rewrite HS; [exact A | | eapply Hlen; exact A]. intros p' Hr. destruct (H4 c p' Hr) as [Hn1 _]. exact (Hn1 p d Hf).
+    rewrite HS; [exact A | | eapply Hlen; exact A]. intros p' Hr. destruct (H4 c p' true Hr) as [Hn1 _]. exact (Hn1 p d Hf).
   - intros p lv Hp. destruct (H8 p lv Hp) as [A B]. split; [rewrite (HP p lv Hp); exact A | lia].
   - rewrite HS; [exact H9 | intros p'; apply (winv_pc_notR _ _ _ _ _ _ _ p' Hw) | eapply Hlen; exact H9].
   - intros d Hd. destruct (H10 d Hd) as (A & B & C & D & F & G & G').
@@ -478,7 +482,7 @@ Qed.
 (* the same states, another scope and environments *)
 Lemma winv_env fl W sc e st E stL fl' sc' e' E' :
   winv fl W sc e st E stL ->
-  (forall v, In v sc' -> exists c p, SyltSem.lookup e' v = Some c /\ sget (fmt_var v) E' = Some p /\ w_R W c p) ->
+  (forall v, In v sc' -> exists c p, SyltSem.lookup e' v = Some c /\ sget (fmt_var v) E' = Some p /\ w_R W c p true) ->
   (forall v, In v sc' -> ~ In v (fnames fl')) ->
   (forall t p, bound <= t -> sget (fmt_var t) E' = Some p -> not_user W p) ->
   winv fl' W sc' e' st E' stL.
@@ -502,7 +506,7 @@ Proof.
   - destruct Hx as (_ & _ & Hc & Hnc & _ & _ & Hn & Hg).
     apply (winv_states fl W' sc e st E stL st stL' HW).
     + intros; reflexivity.
-    + intros c p Hr. destruct (wi_R _ _ _ _ _ _ _ HW c p Hr) as (x & A & B & C). exists x. split; [exact A | rewrite Hg; assumption].
+    + intros c p Hr. destruct (wi_R _ _ _ _ _ _ _ HW c p true Hr) as (x & A & B & C). exists x. split; [exact A | rewrite Hg; assumption].
     + intros; reflexivity.
     + intros c p d Hf. apply Hg. apply (wi_F _ _ _ _ _ _ _ HW c p d Hf).
     + intros p lv Hp'. apply Hg. apply (wi_P _ _ _ _ _ _ _ HW p lv Hp').
@@ -520,7 +524,7 @@ Proof.
   assert (Hfl : forall f ar, In (f, ar) fl -> f < bound).
   { intros f ar Hin. destruct (Hfb f); [|assumption]. unfold fnames. change f with (fst (f, ar)). apply in_map. exact Hin. }
   split.
-  { intros f ar Hin. destruct (Hfs f ar Hin) as (c & p & d & A & B & C). exists c, p, d. split; [exact A | split; [|exact C]].
+  { intros f ar Hin HK. destruct (Hfs f ar Hin HK) as (c & p & d & A & B & C). exists c, p, d. split; [exact A | split; [|exact C]].
     rewrite sget_sset_var; [exact B | pose proof (Hfl f ar Hin); lia]. }
   exists W'. split; [exact Hs|]. constructor.
   - exact Hb.
@@ -535,7 +539,7 @@ Proof.
   - assert (Hw1 : winv fl W' sc e st E (snd (alloc_cell stL v))).
     { apply (winv_states fl W' sc e st E stL st (snd (alloc_cell stL v)) HW).
       - intros; reflexivity.
-      - intros c p Hr. destruct (wi_R _ _ _ _ _ _ _ HW c p Hr) as (x & A & B & C). exists x. split; [exact A | rewrite get_cell_alloc_old; assumption].
+      - intros c p Hr. destruct (wi_R _ _ _ _ _ _ _ HW c p true Hr) as (x & A & B & C). exists x. split; [exact A | rewrite get_cell_alloc_old; assumption].
       - intros; reflexivity.
       - intros c p d Hf. apply get_cell_alloc_old. apply (wi_F _ _ _ _ _ _ _ HW c p d Hf).
       - intros p lv Hp'. apply get_cell_alloc_old. apply (wi_P _ _ _ _ _ _ _ HW p lv Hp').
@@ -548,7 +552,7 @@ Proof.
     + apply (wi_scfl _ _ _ _ _ _ _ HW).
     + intros t' p Hbt' Hq. destruct (N.eq_dec t' t) as [->|Hne].
       * rewrite sget_sset_same in Hq. inversion Hq; subst p. split.
-        -- intros c Hr. destruct (wi_R _ _ _ _ _ _ _ HW c _ Hr) as (_ & _ & _ & Hlt). lia.
+        -- intros c b Hr. destruct (wi_R _ _ _ _ _ _ _ HW c _ b Hr) as (_ & _ & _ & Hlt). lia.
         -- intros c d Hf. destruct (wi_F _ _ _ _ _ _ _ HW c _ d Hf) as (_ & _ & Hlt & _). lia.
       * rewrite sget_sset_var in Hq by exact Hne. apply (wi_temps _ _ _ _ _ _ _ HW t' p Hbt' Hq).
 Qed.
@@ -571,8 +575,8 @@ Proof.
   - destruct (wi_temps _ _ _ _ _ _ _ HW t p Hbt Htp) as [HnR HnF].
     apply (winv_states fl W' sc e st E stL st (set_cell stL p v) HW).
     + intros; reflexivity.
-    + intros c q Hr. destruct (wi_R _ _ _ _ _ _ _ HW c q Hr) as (x & A & B & C). exists x. split; [exact A|].
-      rewrite get_cell_set_other; [exact B | intros ->; exact (HnR c Hr)].
+    + intros c q Hr. destruct (wi_R _ _ _ _ _ _ _ HW c q true Hr) as (x & A & B & C). exists x. split; [exact A|].
+      rewrite get_cell_set_other; [exact B | intros ->; exact (HnR c true Hr)].
     + intros; reflexivity.
     + intros c q d Hf. apply get_cell_set_other. intros ->. exact (HnF c d Hf).
     + intros q lv Hq. apply get_cell_set_other. intros ->. destruct Hs as (_ & _ & _ & HP & _). apply (Hnp lv). apply HP. exact Hq.
